@@ -189,6 +189,46 @@ func rulesC14(c *Ctx) {
 		}
 	}
 	c.Floor("C14.fresh", nClone, 5)
+	// compiled regexps: (*regexp.Regexp).Longest mutates its receiver, so a
+	// shared pointer is a shared mutable node; CloneRegexLiteral recompiles
+	c.Rule("C14.regexcopy", "a clone function that builds a RegexLiteral gives it its own compiled regexp (recompiled or copied, as CloneRegexLiteral does), never the source's *regexp.Regexp itself: Regexp.Longest() changes the matcher in place, so a shared pointer lets a change to the clone alter how the original matches")
+	nRe := 0
+	for _, f := range p.SortedFuncs() {
+		if !isCloneFunc(f) {
+			continue
+		}
+		fd := p.FuncDecls[f]
+		if fd == nil || fd.Body == nil {
+			continue
+		}
+		name := FuncName(f)
+		ast.Inspect(fd.Body, func(n ast.Node) bool {
+			cl, ok := n.(*ast.CompositeLit)
+			if !ok || p.TypeStr(p.Info.TypeOf(cl)) != "RegexLiteral" {
+				return true
+			}
+			for _, el := range cl.Elts {
+				kv, ok := el.(*ast.KeyValueExpr)
+				if !ok {
+					continue
+				}
+				if id, ok := kv.Key.(*ast.Ident); !ok || id.Name != "Val" {
+					continue
+				}
+				nRe++
+				key := fmt.Sprintf("%s: RegexLiteral{Val: %s}", name, types.ExprString(kv.Value))
+				if sel, ok := ast.Unparen(kv.Value).(*ast.SelectorExpr); ok && sel.Sel.Name == "Val" {
+					c.Bad("C14.regexcopy", key, kv.Pos(), "the clone holds the very *regexp.Regexp of the original")
+				} else {
+					c.OK("C14.regexcopy", key, kv.Pos(), "own compiled regexp")
+				}
+			}
+			return true
+		})
+	}
+	if nRe == 0 {
+		c.OK("C14.regexcopy", "clone functions", 0, "no clone function builds a RegexLiteral from a shared pointer (all go through CloneRegexLiteral)")
+	}
 
 	// ---- C14.fields / C14.overwrite ----
 	c.Rule("C14.fields", "inside a clone function every composite literal of a package struct type sets every field of that type")
